@@ -260,6 +260,8 @@ func TestC17(t *testing.T) {
 					c.Violation("C17|reify", "%v", err)
 					return
 				}
+				var lmu sync.Mutex
+				lookedUp := map[string]bool{}
 				res := runRound(c, node, 300, hs, int64(c.Seed)+int64(round), func(g int, rr *rand.Rand, node ipld.Node, res *c17Result) {
 					for i := 0; i < 6; i++ {
 						atomic.AddInt64(&res.ops, 1)
@@ -271,10 +273,33 @@ func TestC17(t *testing.T) {
 						}
 						if got, e := asCid(v); e != nil || !got.Equals(model[name]) {
 							res.diff("LookupByString(%q) returned %v among 300 goroutines, %v alone", name, got, model[name])
+							continue
 						}
+						lmu.Lock()
+						lookedUp[name] = true
+						lmu.Unlock()
 					}
 				})
 				hamt.SetVerifHook(nil)
+				if !res.stuck && !res.deadlock && len(res.diffs) == 0 {
+					// the node after the round is the node after SOME serial order of those lookups, and after
+					// any serial order every shard on the way to a name that was found is held by the node:
+					// with the storage shut, each of those names is found again
+					st.Closed = true
+					for name := range lookedUp {
+						v, err := node.LookupByString(name)
+						if err != nil {
+							res.diff("after %d concurrent lookups had all returned, the storage was shut: LookupByString(%q) - found during the round - now fails with %v; after the same lookups in any serial order it succeeds", res.ops, name, err)
+							break
+						}
+						if got, e := asCid(v); e != nil || !got.Equals(model[name]) {
+							res.diff("with the storage shut LookupByString(%q) returns %v, want %v", name, got, model[name])
+							break
+						}
+					}
+					st.Closed = false
+					c.Count("names_looked_up_again_without_storage", int64(len(lookedUp)))
+				}
 				c.Count("rounds", 1)
 				c.Count("ops_compared", res.ops)
 				c.Count("overlapped_rounds", 1)
